@@ -40,9 +40,14 @@ def run(tier, pid="C06", want_hit=False):
     sc.model_check(ck, tier)
     n = 700 if tier == "quick" else 8000
     tot = {"searches": 0, "cache_hits": 0, "ops": 0, "behaviours": 0, "flavours": {}, "paths": {}}
-    for i, (capq, maxk, depth) in enumerate([(2, 3, 12), (1, 2, 10), (3, 4, 16)]):
+    fams = [(2, 3, 12, 4, 2), (1, 2, 10, 4, 2), (3, 4, 16, 4, 2)]
+    if want_hit:
+        # cache-stress families: tiny alphabets (3 ids, 3 points, one scope) so that chains such as
+        # "same query with growing k, overwrite of a shared result document, same query again" are frequent
+        fams += [(2, 2, 10, 3, 1), (1, 2, 8, 3, 1), (2, 3, 10, 2, 1)]
+    for i, (capq, maxk, depth, ni_, nsc) in enumerate(fams):
         # for the cache verdict use few query points so that the same (scope, query) recurs often
-        r = sc.generate(n, depth, capq, maxk, seed_off=i + (50 if want_hit else 0), np_=(2 if want_hit else 6))
+        r = sc.generate(n * (2 if i >= 3 else 1), depth, capq, maxk, seed_off=i + (50 if want_hit else 0), np_=(2 if want_hit else 6), ni_=ni_, nsc=nsc)
         ck.add_tlc("TieredSearch simulate capq=%d maxk=%d num=%d depth=%d" % (capq, maxk, n, depth), r)
         stats, events = judge(ck, r.json_lines, capq, "g%d" % i, want_hit)
         for k in ("searches", "cache_hits", "ops"):
@@ -52,6 +57,17 @@ def run(tier, pid="C06", want_hit=False):
             if e["ev"] == "search":
                 tot["flavours"][e["flavour"]] = tot["flavours"].get(e["flavour"], 0) + 1
                 tot["paths"][e["path"]] = tot["paths"].get(e["path"], 0) + 1
+    if want_hit:
+        # exhaustive suffixes: every 4-step sequence of Insert / Delete / Search over 2 ids x 3 points x k in {1,2} after
+        # two fixed inserts (38 416 behaviours) - covers every short chain of cache store / replace / invalidate / hit
+        from vlib import tlc
+        r = tlc("TieredSearch", cfg="TieredSearchCore.cfg", workers=8, timeout=1200, consts={"MaxOps": 6 if tier == "quick" else 6})
+        ck.add_tlc("TieredSearch exhaustive suffixes (Core mode)", r)
+        stats, events = judge(ck, r.json_lines, 2, "core", want_hit)
+        for k in ("searches", "cache_hits", "ops"):
+            tot[k] += stats[k]
+        tot["behaviours"] += len(r.json_lines)
+        tot["exhaustive_suffix_behaviours"] = len(r.json_lines)
     ck.assumptions += ["float accuracy of distances is decided by the f64 reference in the harness (tolerance 2e-4 relative); TLC sees the boolean",
                        "completeness is demanded only for acknowledged writes the harness knows are un-drained (and, for cache hits, written since the entry was computed)",
                        "Cosine / InnerProduct inputs are exact unit vectors (outside the engine's [0.98,1.02] re-normalisation question)",
